@@ -202,9 +202,9 @@ def run(ctx):
     # all interleavings; OwnerComputes fails within a few steps on a wrong skeleton (the differing results appear only at the join,
     # behind a state space that a racy skeleton makes explode)
     r = ctx.model_check(mc, _cfg(sem + ["OwnerComputes", "Emit", "CodegenReport"]), name="Kernel[all interleavings, T in 1..3]",
-                        coverage=True)
+                        coverage=not ctx.quick)
     _name_violation(ctx, r, sks)
-    if not r.violated:
+    if not r.violated and not ctx.quick:
         cov = r.coverage()
         for act in ("MasterStep", "Claim", "Step", "EndRegion"):
             if cov.get(act, (0, 0))[1] == 0:
@@ -229,6 +229,12 @@ def run(ctx):
             elif v and v[0] == "CODEGEN":
                 codegen.add(v[1])
         ctx.cov["fastmath_codegen_dependent_kernels"] = sorted(codegen)
+        # vacuity guard (also without -coverage): every kernel reached its end under every thread count with every index claimed,
+        # i.e. MasterStep, Claim, Step and EndRegion were all taken
+        for sk in sks:
+            need = sk["ext"][sk["loops"].index("prange")] if (sk["parallel"] and "prange" in sk["loops"]) else 0
+            if not any(len(o) >= need for o in orders.get(sk["name"], ())):
+                raise core.MachineryFailure(f"Kernel: no complete behaviour of {sk['name']} was explored (vacuous)")
         if codegen:
             ctx.assume("fastmath=True: the bits of " + ", ".join(sorted(codegen)) + " depend on the association the compiler chooses for the "
                        "sequential fold (TLC: CodegenIndependent is false); it is chosen once per build and is the same for every thread, call "
